@@ -261,8 +261,15 @@ def run_one(job):
     wd = H.mkscratch("c20")
     res = {"msgs": [], "spec": S.text(), "nprobes": 0}
     try:
-        open(os.path.join(wd, "p.l"), "w").write(S.text())
-        p = subprocess.run([flex.exe] + list(cli) + ["-olex.yy.c", "p.l"], cwd=wd, env=H.ENV, stdin=subprocess.DEVNULL, stdout=subprocess.PIPE, stderr=subprocess.PIPE, timeout=120)
+        split = 0
+        if "twofiles" in feats:
+            # the specification continues in a second input file (flex p.l q.l): line numbers restart, directives name the second file
+            split = S.probes["action1"]          # q.l starts with the line after the first rule
+            open(os.path.join(wd, "p.l"), "w").write("\n".join(S.lines[:split]) + "\n")
+            open(os.path.join(wd, "q.l"), "w").write("\n".join(S.lines[split:]) + "\n")
+        else:
+            open(os.path.join(wd, "p.l"), "w").write(S.text())
+        p = subprocess.run([flex.exe] + list(cli) + ["-olex.yy.c", "p.l"] + (["q.l"] if split else []), cwd=wd, env=H.ENV, stdin=subprocess.DEVNULL, stdout=subprocess.PIPE, stderr=subprocess.PIPE, timeout=120)
         err = p.stderr.decode("latin-1")
         where = "%s/%s" % (payload_at[0], payload_at[2]) if payload_at else "layout"
         if p.returncode != 0 or not os.path.exists(os.path.join(wd, "lex.yy.c")):
@@ -286,10 +293,10 @@ def run_one(job):
                 if n != j + 2:
                     res["msgs"].append(("outline", "'#line %d \"lex.yy.c\"' stands on output line %d (the line after it is line %d)" % (n, j + 1, j + 2)))
                     break
-            elif f != "p.l":
+            elif f not in ("p.l", "q.l") or (f == "q.l" and not split):
                 res["msgs"].append(("linefile", "#line names an unexpected file: %s" % l))
                 break
-            elif n < 1 or n > len(S.lines) + 1:
+            elif n < 1 or n > (len(S.lines) + 1 if not split else (split + 1 if f == "p.l" else len(S.lines) - split + 1)):
                 res["msgs"].append(("linerange", "#line %d is outside the input file (%d lines)" % (n, len(S.lines))))
                 break
         if "--header-file=H.h" in cli:
@@ -339,6 +346,8 @@ def run_one(job):
                 res["msgs"].append(("unreached:" + key, "the code of region %s never ran (expected at line %d)" % (key, expect)))
                 continue
             line, hx, ch = got[key]
+            if split and expect > split:
+                expect -= split                 # the probe sits in the second file
             if not noline and line != expect:
                 res["msgs"].append(("line:" + key, "__LINE__ in region %s reports %d, the code is on line %d of the input" % (key, line, expect)))
             if payload_at and payload_at[0] == key:
@@ -364,7 +373,7 @@ def run_one(job):
 
 
 LAYOUT_FEATS = ["blank", "top", "defs", "indent", "s2block", "multiline", "pctaction", "oraction", "scope", "xpattern", "pcomment", "trail", "contaction", "eof",
-                "two_blocks", "sect3b"]
+                "two_blocks", "sect3b", "twofiles"]
 BASE_FEATS = ["top", "defs", "eof"]
 
 
